@@ -41,7 +41,7 @@
 (*            afterwards on the same engine gives the values computed      *)
 (*            here from G.                                                 *)
 (*  "stages"  error STAGE x CONTEXT x HANDLING: a failing expression of    *)
-(*            every stage (parse, expand, compile, 10 run-time kinds) is   *)
+(*            every stage (parse, expand, compile, 11 run-time kinds) is   *)
 (*            placed in every evaluation context (top level, function at   *)
 (*            depth 1 / 50, Scheme-level callbacks, Rust-level re-entry    *)
 (*            (transduce, stream thunk, apply, call-with-values, force),   *)
@@ -342,6 +342,8 @@ Stages == <<
   S("rt-vecidx", "run", "(vector-ref (vector 1 2) (opaque 5))", "(vector-ref (vector 1 2) (opaque 5))"),
   S("rt-div0", "run", "(/ 1 (opaque 0))", "(/ 1 (opaque 0))"),
   S("rt-conv", "run", "(integer->char (opaque -1))", "(integer->char (opaque -1))"),
+  S("rt-stream-tail", "run", "(transduce (stream-cons 1 (lambda () (opaque 5))) (taking 2) (into-list))",
+    "(transduce (stream-cons 1 (lambda () (opaque 5))) (taking 2) (into-list))"),   \* the tail thunk returns a non-stream
   S("rt-assert", "run", "(assert! (opaque #f))", "(assert! (opaque #f))"),
   S("none", "none", "(opaque 9)", "(opaque 9)")          \* control: no failure
 >>
@@ -473,7 +475,9 @@ HistStep(g, u) ==
        [src |-> "(set! r07d@@ " \o ToString(u.v) \o ") (emit (quote did)) (car (opaque 5)) (emit (quote never))",
         out |-> "err", emits |-> <<"did">>, g |-> [g EXCEPT !.d = u.v]]
 
-Units == [op : {"fail"}, c : 1..NC, s : 1..(NS - 2), v : {0}]     \* all stages but rt-assert (a panic ends a history) and the control
+\* all stages but the two that are known to panic (a panic ends a history) and the control
+HistStages == {i \in 1..NS : Stages[i].n \notin {"rt-assert", "rt-stream-tail", "none"}}
+Units == [op : {"fail"}, c : 1..NC, s : HistStages, v : {0}]
          \cup [op : {"setd", "redef", "badredef", "badset"}, c : {0}, s : {0}, v : 2..5]
 
 -----------------------------------------------------------------------------
